@@ -15,7 +15,6 @@ import (
 	"github.com/attestantio/go-eth2-client/spec/phase0"
 	"github.com/attestantio/vouch/internal/vnd"
 	"github.com/attestantio/vouch/internal/vstub"
-	"github.com/rs/zerolog"
 )
 
 // c08New builds the submitter the way main does: through New, every kind
@@ -33,7 +32,7 @@ func c08New(timeout time.Duration, conc int64, nodes []*c08KNode) *Service {
 		att[nd.name], agg[nd.name], prop[nd.name], bsub[nd.name] = nd, nd, nd, nd
 		prep[nd.name], msg[nd.name], contrib[nd.name], ssub[nd.name] = nd, nd, nd, nd
 	}
-	s, err := New(context.Background(), WithLogLevel(zerolog.Disabled), WithClientMonitor(vstub.ClientMonitor{}),
+	s, err := New(context.Background(), WithLogLevel(vnd.LogLevel()), WithClientMonitor(vstub.ClientMonitor{}),
 		WithTimeout(timeout), WithProcessConcurrency(conc),
 		WithAttestationsSubmitters(att), WithAggregateAttestationsSubmitters(agg), WithProposalSubmitters(prop),
 		WithBeaconCommitteeSubscriptionsSubmitters(bsub), WithProposalPreparationsSubmitters(prep),
